@@ -469,12 +469,19 @@ func runC10(c *ctx) {
 		res.Note("extracted *SeenMax constants are %v, the property fixes 2: the model (which mirrors the code) is not expected to meet the specification", cst)
 	}
 	c10check(c, c10canonical())
-	n := c.n(1600, 100000)
-	cases := make([]c10case, n)
-	for i := range cases {
-		cases[i] = genC10(c.rng.U64(), c.thorough())
+	n := c.n(1600, 40000)
+	for done := 0; done < n; {
+		k := n - done
+		if k > 4000 {
+			k = 4000
+		}
+		cases := make([]c10case, k)
+		for i := range cases {
+			cases[i] = genC10(c.rng.U64(), c.thorough())
+		}
+		c10check(c, cases)
+		done += k
 	}
-	c10check(c, cases)
 }
 
 func c10runAll(cases []c10case, slow int) []c10obs {
